@@ -237,6 +237,7 @@ def run(prog: Program, rep: Report, tier: str) -> None:
     from ..share import share
 
     share(prog, rep, "C12", ("R12.4",), "R17.5", "the level arrays handed to the kernels have the lengths the kernels index (rho levels N, w levels N+1)", 4)
+    share(prog, rep, "C15", ("R15.5",), "R17.7", "grid arrays are read at [row from Y, column from X] in every grid class, so the index of an axis stays within that axis", 8)
     share(prog, rep, "C16", ("R16.1", "R16.4"), "R17.6", "positions released by longitude / latitude come back in (x, y) order and in full-grid coordinates, i.e. inside the arrays the kernels index", 6)
 
 
